@@ -1,5 +1,14 @@
 package monitors
 
-import "verif/synth"
+import (
+	"verif/core"
+	"verif/synth"
+)
 
-func routeProgs(seed int64, n int) []*synth.Program { return nil }
+func routeProgs(seed int64, n int) []*synth.Program {
+	var out []*synth.Program
+	for i := 0; i < n; i++ {
+		out = append(out, synth.NewRouteProg(i, core.Rand(seed, "routeprog", i), i%2 == 0))
+	}
+	return out
+}
